@@ -1144,6 +1144,11 @@ func (h *handle) Close() error {
 func (h *handle) Lock() error {
 	d := h.fs.d
 	if d.Sched != nil {
+		d.mu.Lock()
+		if !d.crashed && h.node.lockedBy != nil && h.node.lockedBy != h {
+			d.LockBlocked++ // held by another task right now: this Lock has to wait
+		}
+		d.mu.Unlock()
 		d.Sched.ParkUntil(h.fs.actor, OpLock, h.abs, func() bool {
 			d.mu.Lock()
 			defer d.mu.Unlock()
